@@ -2,6 +2,7 @@ package main
 
 import (
 	"fmt"
+	"regexp"
 	"go/types"
 )
 
@@ -108,7 +109,7 @@ func (vc *VC) fsFun(el types.Type, field string) (fn string, fs *Sort, comp stri
 				i := Term{"i!q", SInt}
 				app := func(r, hh, k Term) Term { return mk(setSort(fs), fn, r, hh, k) }
 				vc.fact(Forall([]Term{a, h}, Eq(app(a, h, Zero), ConstArr(setSort(fs), False)), []Term{app(a, h, Zero)}))
-				vc.fact(Forall([]Term{a, h, n, i}, Imp(And(Le(Zero, i), Lt(i, n)), Select(app(a, h, n), Select(h, Select(a, i)))), []Term{app(a, h, n), Select(a, i)}))
+				vc.fact(Forall([]Term{a, h, n, i}, Imp(And(Le(Zero, i), Lt(i, n)), Select(app(a, h, n), Select(h, Select(a, i)))), []Term{app(a, h, n), Select(h, Select(a, i))}))
 			}
 			ok = true
 			return
@@ -117,6 +118,58 @@ func (vc *VC) fsFun(el types.Type, field string) (fn string, fs *Sort, comp stri
 	return
 }
 
+// fsRegister emits extensionality instances between a field-set application
+// and the ones mentioned before: the set depends only on the field values of
+// the first n elements (relates the same slice under two heap versions, or a
+// slice and its copy).
+func (vc *VC) fsRegister(fn string, fs *Sort, row, h, n Term) {
+	if vc.hasBound(row, h, n) {
+		return
+	}
+	if vc.fsSeen == nil {
+		vc.fsSeen = map[string][][3]Term{}
+	}
+	// group: the same source expression under different heap versions
+	gk := fn + "|" + versionRe.ReplaceAllString(row.S, "")
+	prevs := vc.fsSeen[gk]
+	for _, p := range prevs {
+		if p[0].S == row.S && p[1].S == h.S && p[2].S == n.S {
+			return
+		}
+	}
+	if len(prevs) >= 40 {
+		return
+	}
+	i := Term{"i!q", SInt}
+	emit := func(p [3]Term) {
+		same := Forall([]Term{i}, Imp(And(Le(Zero, i), Lt(i, n)), Eq(Select(h, Select(row, i)), Select(p[1], Select(p[0], i)))), []Term{Select(row, i)}, []Term{Select(p[0], i)})
+		vc.fact(Imp(And(Eq(n, p[2]), same), Eq(mk(setSort(fs), fn, row, h, n), mk(setSort(fs), fn, p[0], p[1], p[2]))))
+	}
+	// against the first mention (usually the entry state), the latest mention
+	// at a loop head (the state the current path started from) and the latest mention
+	if vc.fsAnchors == nil {
+		vc.fsAnchors = map[string][]int{}
+	}
+	want := map[int]bool{0: true, len(prevs) - 1: true}
+	if as := vc.fsAnchors[gk]; len(as) > 0 {
+		want[as[len(as)-1]] = true
+		if len(as) > 1 {
+			want[as[len(as)-2]] = true
+		}
+	}
+	for k, p := range prevs {
+		if want[k] {
+			emit(p)
+		}
+	}
+	if vc.fsAnchor {
+		vc.fsAnchors[gk] = append(vc.fsAnchors[gk], len(prevs))
+	}
+	vc.fsSeen[gk] = append(prevs, [3]Term{row, h, n})
+}
+
+var versionRe = regexp.MustCompile(`(!\d+|@0)\b`)
+
 func (f *Frame) fieldSet(st *State, s Val, field string, n Term) (Term, *Sort, bool) {
 	vc := f.vc
 	el := elemOf(s.T)
@@ -124,14 +177,19 @@ func (f *Frame) fieldSet(st *State, s Val, field string, n Term) (Term, *Sort, b
 	if !ok {
 		return Term{}, nil, false
 	}
-	c := vc.get(st, vc.elemComps(el)[0])
+	c := vc.at(st, vc.elemComps(el)[0], s.arr())
 	row := Select(c, s.arr())
-	h := vc.get(st, comp)
+	// the elements of an array that existed at entry existed at entry
+	h := vc.at(st, comp, s.arr())
 	app := func(k Term) Term { return mk(setSort(fs), fn, row, h, k) }
 	key := "fs-unfold|" + row.S + "|" + h.S + "|" + n.S
 	if !vc.declared[key] && !vc.hasBound(row, h, n) {
 		vc.declared[key] = true
+		vc.fsRegister(fn, fs, row, h, n)
 		prev := Sub(n, One)
+		if n.S != "0" {
+			vc.fsRegister(fn, fs, row, h, prev)
+		}
 		vc.fact(Eq(app(n), Ite(Le(n, Zero), ConstArr(setSort(fs), False), Store(app(prev), Select(h, Select(row, prev)), True))))
 	}
 	return app(n), fs, true
@@ -152,6 +210,7 @@ func (f *Frame) appendFieldSetFacts(st *State, el types.Type, srcRow, srcLen, co
 		}
 		h := vc.get(st, comp)
 		app := func(r, k Term) Term { return mk(setSort(fs), fn, r, h, k) }
+		vc.fsRegister(fn, fs, srcRow, h, srcLen)
 		vc.fact(Eq(app(content, newLen), Store(app(srcRow, srcLen), Select(h, x), True)))
 	}
 }
